@@ -457,6 +457,102 @@ def w11(facts, tier):
 
 
 # ---------------------------------------------------------------------------------------------
+# W18: hand-written composite impls pass each component between memory and the stream unmodified: no call on the data path is a
+# known value-altering operation (re-normalisation, rounding, case folding, trimming, clamping, lossy conversion ...).
+# The table is a deny list of library operations that return something other than their input for some input; an operation the
+# table does not know is not judged (no alarm).
+
+VALUE_ALTERING = {
+    "from_quaternion", "new_normalize", "try_new", "renormalize", "renormalize_fast", "normalize", "normalize_mut", "try_normalize",
+    "from_euler_angles", "from_axis_angle", "from_scaled_axis", "from_rotation_matrix", "from_matrix", "from_basis_unchecked",
+    "inverse", "try_inverse", "conjugate", "transpose", "round", "trunc", "floor", "ceil", "fract", "abs", "signum", "sqrt", "recip",
+    "to_degrees", "to_radians", "rem_euclid", "div_euclid", "to_lowercase", "to_uppercase", "to_ascii_lowercase", "to_ascii_uppercase",
+    "make_ascii_lowercase", "make_ascii_uppercase", "trim", "trim_start", "trim_end", "trim_matches", "trim_start_matches",
+    "trim_end_matches", "strip_prefix", "strip_suffix", "to_string_lossy", "from_utf8_lossy", "dedup", "dedup_by", "dedup_by_key",
+    "retain", "retain_mut", "filter", "filter_map", "skip_while", "take_while", "step_by", "clamp", "min", "max", "swap_bytes",
+    "reverse_bits", "rotate_left", "rotate_right", "wrapping_neg", "wrapping_abs", "unsigned_abs", "canonicalize", "with_nanosecond",
+    "trunc_subsecs", "round_subsecs", "duration_trunc", "duration_round", "date_naive", "with_timezone_lossy", "to_owned_lossy",
+}
+# size arithmetic on counts is not component data
+_W18_COUNT_TYS = {"usize"}
+
+
+def _w18_data_vars(f, reader):
+    """variables carrying component data: reader - bound from an expression containing a read; writer - self and what is bound from it"""
+    from .taint_rules import pat_binds
+    data = set()
+    if not reader:
+        for p in f.get("params", []):
+            if p.get("self") and (p.get("pat") or {}).get("k") == "Bind":
+                data.add(p["pat"]["v"])
+    changed = True
+    while changed:
+        changed = False
+        for s in walk(f["body"]):
+            if s.get("k") == "LetS" and s.get("init") is not None:
+                if _w18_is_data(s["init"], data, reader):
+                    for b in pat_binds(s["pat"]):
+                        if b["v"] not in data:
+                            data.add(b["v"])
+                            changed = True
+            if s.get("k") == "For" and s.get("iter") is not None and _w18_is_data(s["iter"], data, reader):
+                for b in pat_binds(s["pat"]):
+                    if b["v"] not in data:
+                        data.add(b["v"])
+                        changed = True
+            if s.get("k") == "Match":
+                if s.get("e") is not None and _w18_is_data(s["e"], data, reader):
+                    for a in s["arms"]:
+                        for b in pat_binds(a["pat"]):
+                            if b["v"] not in data:
+                                data.add(b["v"])
+                                changed = True
+    return data
+
+
+def _w18_is_data(e, data, reader):
+    for y in walk(e):
+        if y.get("k") == "Var" and y.get("v") in data:
+            return True
+        if reader and y.get("k") == "Call" and is_read(y):
+            return True
+    return False
+
+
+@rule("W18", ["C01"], floor=60, doc="hand-written composite impls move every component between memory and the stream unmodified: no call on "
+      "the data path is a known value-altering operation (normalisation, rounding, case folding, trimming, clamping, filtering, lossy conversion)")
+def w18(facts, tier):
+    from .wire_rules import impl_pairs
+    sers, des = impl_pairs(facts)
+    for reader, table in ((False, sers), (True, des)):
+        for (ty, fid), (f, _) in sorted(table.items()):
+            if "~" in fid:
+                continue
+            st = (f.get("impl") or {}).get("self_ty", "")
+            base = st[len("core::sync::atomic::Atomic<"):-1] if st.startswith("core::sync::atomic::Atomic<") else st
+            if base in PRIMS:
+                continue  # W11
+            data = _w18_data_vars(f, reader)
+            bad = []
+            for x in walk(f["body"]):
+                if x.get("k") != "Call":
+                    continue
+                name = (callee(x) or "").rsplit("::", 1)[-1]
+                if name not in VALUE_ALTERING:
+                    continue
+                if not any(_w18_is_data(a, data, reader) for a in x.get("args", [])):
+                    continue
+                if name in ("min", "max", "clamp") and (x.get("ty") or "") in _W18_COUNT_TYS:
+                    continue
+                bad.append(f"{name} (line {x.get('ln')})")
+            key = f["id"]
+            yield ob(["C01"], "W18", key, "violation" if bad else "pass", where(f),
+                     f"{key}: component data passes through value-altering operation(s) {sorted(set(bad))[:3]}: what is "
+                     f"{'loaded' if reader else 'written'} is no longer what was {'written' if reader else 'held in memory'} for inputs the operation changes" if bad
+                     else "no known value-altering operation on the component data path")
+
+
+# ---------------------------------------------------------------------------------------------
 # W13: value flow of hand-written composite impls: the k-th value written comes from the component that the k-th value
 # read is put back into (a swap of two same-typed components is invisible to the language check)
 
